@@ -12,7 +12,11 @@ PARTIAL BY CONSTRUCTION (DESIGN §5 C16, §4).  The full statement quantifies ov
 are not modelled; they are PARAMETERS.  What is proved is the same statement over every value
 those functions can possibly return (`∀ parts`, `∀ env`) — with NO hypothesis on them for the
 no-panic clause, so not even the invariants of `url` are assumed — plus, for SipHash, the
-statement for every hash function.  The step from strings to parts is covered by the
+statement for every hash function.  In short (audit-c H3): the no-panic theorems are about the
+DECISION LOGIC AFTER the external parsers; "no textual panic site" is what the scan of the sources
+establishes (section 1); the digest pins of `source.rs` / `FromStr for Position` / `airports.rs`
+are the real guard that the hand-written model is still the code.  Nothing here is a theorem
+about strings.  The step from strings to parts is covered by the
 implementation-vs-oracle pass of the harness (real `from_str` on generated strings) and the
 model-vs-implementation pass (same parts, same answer), see notes/C16.md.
 -/
@@ -21,21 +25,74 @@ import Rs1090.Spec.Source
 namespace Rs1090.Props.C16
 open Rs1090 Rs1090.Source
 
-/-! ### 1. The source still has exactly the panic sites the model has (none reachable) -/
+/-! ### 1. What a TEXTUAL scan of the sources finds
 
-/-- `Source::from_str`: the only `unwrap/expect/panic!/assert!` left is on the constant
-    `Url::parse("tcp://")`, which no input can influence (the harness executes it in every case). -/
+These theorems are about *text*, not behaviour (audit-c H3).  `gen/extractors/source.py` scans the
+bodies of `Source::from_str`, `Source::serial` + `build_serial`, `Position::from_str`, and the two
+workspace callees the latter reaches (`static AIRPORTS`'s initialiser, `one_airport`) for
+`unwrap`/`expect` in every spelling, the `panic!`/`assert!` families, the std calls that panic on a bad
+index / length / borrow (`split_at`, `remove`, `insert`, `drain`, `swap`, `copy_from_slice`, RefCell
+borrows, …), `unsafe`, every indexing / slicing expression, every binary arithmetic operator, and the set
+of everything the bodies call.  "No textual panic site" is all the scan establishes: a panic inside
+`url`, `regex`, `serde_json` or std is invisible to it, and so is any construct the patterns do not
+know.  The real guard that the hand-written model still describes the code is the digest pin of the
+whole of `source.rs`, of `FromStr for Position` and of `airports.rs` (`Pins/C16.lean`,
+`source_pinned`); the scan exists so that a *re-introduced* unwrap/index/subtraction is named in
+the failure message. -/
+
+/-- `Source::from_str`, text: the only `unwrap/expect/panic!/assert!/…` occurrence is on the constant
+    `Url::parse("tcp://")`, which no input can influence (the harness executes it in every case);
+    no indexing or slicing expression; no arithmetic operator. -/
 theorem from_str_panic_sites :
-    Gen.Source.fromStrPanicSites = ["let default_tcp = Url::parse(\"tcp://\").unwrap();"] := by decide
+    Gen.Source.fromStrPanicSites = ["let default_tcp = Url::parse(\"tcp://\").unwrap();"] ∧
+    Gen.Source.fromStrIndexSites = [] ∧ Gen.Source.fromStrArithSites = [] := by decide
 
-/-- `Position::from_str` has no `unwrap/expect/panic!` and indexes `parts` only below the length
-    it has just checked. -/
+/-- `Position::from_str`, text: no `unwrap/expect/panic!/…`, no arithmetic; the only indexing
+    expressions are `parts[0]`, `parts[1]`, below the length (`positionPieces = 2`) the code has just
+    checked (`if parts.len() != 2 { return Err }`, matched by the extractor). -/
 theorem position_panic_sites :
     Gen.Source.positionPanicSites = [] ∧
+      Gen.Source.positionIndexExprs = ["parts[0]", "parts[1]"] ∧
+      Gen.Source.positionArithSites = [] ∧
       Gen.Source.positionIndexSites.all (· < Gen.Source.positionPieces) = true := by decide
 
-/-- `Source::serial` has no panic site. -/
-theorem serial_panic_sites : Gen.Source.serialPanicSites = [] := by decide
+/-- `Source::serial` and `build_serial`, text: nothing. -/
+theorem serial_panic_sites :
+    Gen.Source.serialPanicSites = [] ∧ Gen.Source.serialIndexSites = [] ∧
+    Gen.Source.serialArithSites = [] := by decide
+
+/-- The workspace callees of `Position::from_str` (airports.rs), text: the one `unwrap` is on
+    `serde_json::from_str(AIRPORTS_JSON)` in the `Lazy` initialiser of `AIRPORTS` — a constant of the
+    build (`include_str!`), executed by the harness in every run (every ICAO/IATA code is looked up);
+    `one_airport` has no occurrence, no indexing, no arithmetic. -/
+theorem airports_panic_sites :
+    Gen.Source.airportsPanicSites =
+      ["Lazy::new(|| serde_json::from_str(AIRPORTS_JSON).unwrap())"] ∧
+    Gen.Source.airportsIndexSites = [] ∧ Gen.Source.airportsArithSites = [] := by decide
+
+/-- Everything the scanned bodies call or read.  Workspace-defined: `Position::from_str`,
+    `build_serial`, `one_airport`, `AIRPORTS` (all scanned above); the rest is `url`, `regex`,
+    `serde_json`, `once_cell` and std — the trusted parameters of this property.  A new callee
+    changes one of these lists and has to be looked at. -/
+theorem reached_calls :
+    Gen.Source.fromStrCalls =
+      [".and_then", ".host", ".host_str", ".join", ".map", ".map_err", ".ok", ".ok_or", ".path",
+       ".port_or_known_default", ".query", ".replace", ".scheme", ".strip_prefix", ".to_string",
+       ".unwrap", ".unwrap_or", "Address::Rtlsdr", "Address::Tcp", "Address::Udp",
+       "Address::Websocket", "AddressPath::Short", "Position::from_str", "Url::parse",
+       "WebsocketPath::Short", "format!"] ∧
+    Gen.Source.serialCalls =
+      [".clone", ".finish", ".hash", ".to_string", ".unwrap_or", "Address::Rtlsdr", "Address::Sero",
+       "Address::Tcp", "Address::Udp", "Address::Websocket", "AddressPath::Long",
+       "AddressPath::Short", "DefaultHasher::new", "WebsocketPath::Long", "WebsocketPath::Short",
+       "build_serial", "format!"] ∧
+    Gen.Source.positionCalls =
+      [".and_then", ".as_ref", ".collect", ".find", ".iter", ".len", ".map", ".map_err", ".ok",
+       ".or_else", ".parse", ".split", ".to_string", ".trim", "AIRPORTS", "Regex::new", "format!",
+       "one_airport"] ∧
+    Gen.Source.airportsCalls =
+      [".is_match", ".iter", ".unwrap", "AIRPORTS", "AIRPORTS_JSON", "Lazy::new",
+       "serde_json::from_str"] := by decide
 
 /-- The literals the model takes from source.rs are those of the documentation
     (`Spec.Source`): supported schemes, `0.0.0.0`, 10003, and the shapes of the three
@@ -58,23 +115,31 @@ theorem source_literals :
   simp [Gen.Source.schemes, Spec.Source.schemes]
   constructor <;> (intro h; rcases h with h | h | h | h <;> simp [h])
 
-/-! ### 2. Never a panic — for every value the external parsers may return -/
+/-! ### 2. The decision logic AFTER the external parsers never reaches a panic
 
-/-- `Position::from_str` never panics: whatever `Regex::new`, the airport search and
-    `f64::from_str` answer. -/
+These are theorems about `Model/Source.lean`: the `match`/`if`/`?` structure of the two `from_str`
+that runs once `url`, `regex`, the airport scan and `f64::from_str` have answered.  The model
+contains no `.panic` constructor (the code, per section 1, no textual panic site besides the two
+constants), so the proofs are case analyses — they say that no combination of parser answers is
+left without a value or an `Err`, NOT that the parsers themselves, or the real functions on strings,
+cannot panic.  That part is the harness oracle's (real `from_str` on generated strings). -/
+
+/-- The decision logic of `Position::from_str` yields a value or an error whatever `Regex::new`,
+    the airport search and `f64::from_str` answer. -/
 theorem position_ne_panic (p : PosParts) (s : Site) : Position.fromParts p ≠ .panic s := by
   unfold Position.fromParts
   repeat' split
   all_goals (intro h; cases h)
 
-/-- The scheme match never panics, for arbitrary parts (no `url` invariant needed). -/
+/-- The scheme match yields a value or an error for arbitrary parts (no `url` invariant needed). -/
 theorem address_ne_panic (u : UrlParts) (s : Site) : addressOf u ≠ .panic s := by
   unfold addressOf
   repeat' split
   all_goals (intro h; cases h)
 
-/-- `Source::from_str` never panics (after a successful `join`), for arbitrary parts and an
-    arbitrary behaviour `env` of regex / airports / float parsing on the query. -/
+/-- The decision logic of `Source::from_str` after a successful `join` yields a value or an error,
+    for arbitrary parts and an arbitrary behaviour `env` of regex / airports / float parsing on the
+    query. -/
 theorem from_parts_ne_panic (env : String → PosParts) (u : UrlParts) (s : Site) :
     fromParts env u ≠ .panic s := by
   unfold fromParts
